@@ -130,7 +130,7 @@ def check(pid, tier, seed):
         ln = rnd.choice([0, 1, 2, 255, 4095, 4096, 4097, 8192, 65536]) if rnd.random() < 0.5 else rnd.randrange(0, 70000)
         if tier == "thorough" and i % 500 == 0:
             ln = 3 * (1 << 20) + rnd.randrange(0, 5000)
-        cfg = "roundtrip=1 seed=%d len=%d flavour=%d append=%d text=%d dir=%s" % (rnd.randrange(1, 2 ** 31), ln, rnd.randrange(3), rnd.randrange(2), rnd.randrange(2), scratch)
+        cfg = "roundtrip=1 seed=%d len=%d flavour=%d append=%d text=%d companion=%d dir=%s" % (rnd.randrange(1, 2 ** 31), ln, rnd.randrange(3), rnd.randrange(2), rnd.randrange(2), 1 if i % 3 == 0 else 0, scratch)
         rlines += ["X rt%d %s" % (i, cfg), "E"]
         rcfg["rt%d" % i] = cfg
     rres = common.run_harness(exe, "\n".join(rlines) + "\n")
